@@ -2,6 +2,7 @@
 import random
 
 import c05
+import clientmodel
 import domlib
 import viewgen
 import vlib
@@ -158,6 +159,31 @@ def main(argv):
                 changed = True
             prev = parts["nodes"]
         chk.note_case(line, dyn and changed)
+    # correspondence with the client model Dom/Client.v: once hydrated, the visible tree after every write is the model's
+    # (views whose scenario failed above are judged by the oracle; NoHydrate content stays as the server sent it, by design)
+    failed = set(o["case"] for o in orfail)
+    sel = [i for i, (st, v, ops) in enumerate(cases) if i not in failed and not has_kind(v, "nohydrate") and not impl[i][0].startswith("PANIC")
+           and not c05.has_toplevel_dynamic_child(v) and not c05.has_toplevel_nossr(v)]
+    mism = []
+    okm, outm = vlib.coq_make(["theories/Dom/ClientShow.vo"])
+    chk.obligation("coq build theories/Dom/ClientShow.vo (client model)", okm, outm)
+    model = None
+    if okm:
+        try:
+            model = clientmodel.run_model(PID, [cases[i] for i in sel])
+        except RuntimeError as e:
+            chk.obligation("model evaluation (Dom/Client.v)", False, str(e)[-800:])
+    if model is not None:
+        vis = lambda ns: merge_text([x for x in norm_nodes(ns) if x[0] != "C"])
+        for i, mo in zip(sel, model):
+            for k, (l, m) in enumerate(zip(impl[i][1:], mo)):
+                parts = dict(p.split(" ", 1) if " " in p else (p, "") for p in l.split(" ; "))
+                if vis(c05.parse_nodes(parts["nodes"])) != vis(c05.parse_nodes(m)):
+                    mism.append({"scenario": lines[i], "step": k, "hydrated": parts["nodes"][:400], "model": m[:400]})
+                    break
+        chk.traces = len(sel)
+    chk.obligation("correspondence: after hydration the visible tree follows Dom/Client.v through every write (%d scenarios)" % len(sel),
+                   model is not None and not mism, str(mism[:1]))
     findings = {f["key"]: f for f in vlib.load_findings(PID)}
     real = []
     for o in orfail:
@@ -174,6 +200,8 @@ def main(argv):
     if real:
         real.sort(key=lambda o: len(o["view"]))
         chk.violation({"property": PID, "kind": "oracle failure on implementation output", "input": real[0], "count": len(real)})
+    elif mism or model is None:
+        chk.violation({"property": PID, "kind": "proof/correspondence broken, oracle clean on all inputs explored", "mismatches": mism[:3], "mismatch_count": len(mism)}, no_input=True)
     return chk.finish()
 
 
